@@ -44,6 +44,7 @@ import r51_geometry
 import r52_weightconst
 import r53_excess
 import r54_continuation
+import r55_implicit
 import r06_validate
 import r07_cache
 import r08_toporder
@@ -248,6 +249,10 @@ def r54(ctx, prop):
     return r54_continuation.run(ctx.F())
 
 
+def r55(ctx, prop):
+    return r55_implicit.run(ctx.F())
+
+
 def r43(ctx, prop):
     return r43_selfnorm.run(ctx.F())
 
@@ -338,7 +343,7 @@ def r22(ctx, prop):
 
 def r21(ctx, prop):
     want = {"C06": ("criticality",), "C20": ("entropy scaling",), "C13": ("virial",), "C14": ("parameter construction",),
-            "C17": ("second-derivative", "convolver", "functional", "FMT")}.get(prop)
+            "C17": ("second-derivative", "convolver", "functional", "FMT"), "C19": ("second-derivative",)}.get(prop)
     return r21_clones.run(ctx.F(), want)
 
 
@@ -453,6 +458,7 @@ R10F_SCOPES = {
     "C07": ("phase_equilibria::stability_analysis",),
     "C20": ("estimator::", "state::residual_properties"),
     "C16": ("feos_dft::adsorption", "feos_dft::solvation", "feos_dft::profile", "feos_dft::interface"),
+    "C19": ("feos_dft::adsorption", "feos_dft::profile", "feos_dft::interface", "feos_dft::pdgt"),
 }
 
 
@@ -491,6 +497,7 @@ PROPERTY_RULES = {
     "C10": [r10_selector, r8, r1_idealgas, r3, r19, r25, r29, r10_selconst, r1_guard_idealgas, r44],
     "C14": [r14, r13, r10_identifier, r21, r27, r28, r38, r40, r47, r20b, r49],
     "C12": [r4, r16, r50, r54, r24],
+    "C19": [r55, r1_functional, r8, r21, r10_selconst],
     "C15": [r15],
     "C16": [r51, r52, r53, r48, r10_selconst],
     "C20": [r10_transport, r21, r25, r24, r34, r10_selconst, r41, r47],
